@@ -86,7 +86,7 @@ def worker_init():
 
 SUB_SNIPPET = (
     "import sys, json, hashlib\n"
-    "sys.path.insert(0, '/repo'); sys.path.insert(0, %r)\n"
+    "sys.path.insert(0, %r)\n"
     "from mc import boot\nboot.install()\nfrom mc import progs\nprogs.worker_setup()\n"
     "texts = json.load(open(%r))\nout = {}\n"
     "for k, t in texts.items():\n"
@@ -233,7 +233,7 @@ def execute(tree, choices, W, assignment, max_passes, order=None):
 
 
 REAL_POOL_SNIPPET = (
-    "import sys, os, json\nsys.path.insert(0, '/repo')\n"
+    "import sys, os, json\nsys.path.insert(0, os.environ.get('MC_REPO', '/repo'))\n"
     "import pyrefact.main\nmain = sys.modules['pyrefact.main']\nfrom pyrefact import logs\nlogs.set_level(100)\n"
     "os.chdir(%r)\nfiles = %r\nres = main.format_files(files, n_cores=1, max_passes=%d)\n"
     "print(json.dumps([bool(res), [open(f).read() for f in files]]))\n"
